@@ -251,6 +251,8 @@ def f_lark(a):
         st = _stuff(LG)
         if a.get("other_first"):          # the same LarkStuff object was already asked for the byte-level grammar
             st.byte_cfg(charset=set(cs))
+        if a.get("other_charset"):        # ... or for a grammar relative to ANOTHER character set
+            st.char_cfg(charset=set(a["other_charset"]))
         g = st.char_cfg(charset=set(cs), recursion=a.get("recursion", "right"))
     texts = [p for n in range(L + 1) for p in itertools.product(cs, repeat=n)]
     acc = [[tname(c) for c in s] for s in texts if g(s) > 0]
@@ -267,6 +269,8 @@ def f_larkbytes(a):
         st = _stuff(LG)
         if a.get("other_first"):          # the same LarkStuff object was already asked for the character-level grammar
             st.char_cfg(charset=set(cs))
+        if a.get("other_charset"):
+            st.byte_cfg(charset=set(a["other_charset"]))
         g = st.byte_cfg(charset=set(cs))
     bvals = sorted({b for c in cs for b in c.encode("utf-8")})
     cands = [p for n in range(L + 1) for p in itertools.product(bvals, repeat=n)]
